@@ -2,7 +2,9 @@ package otto
 
 import (
 	"math"
+	"math/big"
 	"strconv"
+	"strings"
 
 	"golang.org/x/text/language"
 	"golang.org/x/text/message"
@@ -53,42 +55,105 @@ func builtinNumberToFixed(call FunctionCall) Value {
 	if 20 < precision || 0 > precision {
 		panic(call.runtime.panicRangeError("toFixed() precision must be between 0 and 20"))
 	}
-	if call.This.IsNaN() {
+	// Will throw a TypeError if ThisObject is not a Number
+	value := call.thisClassObject(classNumberName).primitiveValue().float64()
+	if math.IsNaN(value) {
 		return stringValue("NaN")
 	}
-	if value := call.This.float64(); math.Abs(value) >= 1e21 {
+	if math.Abs(value) >= 1e21 {
 		return stringValue(floatToString(value, 64))
 	}
-	return stringValue(strconv.FormatFloat(call.This.float64(), 'f', int(precision), 64))
+	return stringValue(fixedString(value, int(precision)))
+}
+
+// fixedString is ECMA-262 15.7.4.5 steps 5-9: the integer n for which
+// n / 10^f - x is as close to zero as possible, the larger n on a tie.
+func fixedString(x float64, f int) string {
+	sign := ""
+	if x < 0 {
+		sign, x = "-", -x
+	}
+	scaled := new(big.Rat).SetFloat64(x) // exact
+	scaled.Mul(scaled, new(big.Rat).SetInt(new(big.Int).Exp(big.NewInt(10), big.NewInt(int64(f)), nil)))
+	scaled.Add(scaled, big.NewRat(1, 2))
+	m := new(big.Int).Div(scaled.Num(), scaled.Denom()).String() // floor(x * 10^f + 1/2)
+	if f > 0 {
+		if len(m) <= f {
+			m = strings.Repeat("0", f+1-len(m)) + m
+		}
+		m = m[:len(m)-f] + "." + m[len(m)-f:]
+	}
+	return sign + m
 }
 
 func builtinNumberToExponential(call FunctionCall) Value {
-	if call.This.IsNaN() {
+	// Will throw a TypeError if ThisObject is not a Number
+	number := call.thisClassObject(classNumberName).primitiveValue().float64()
+	if math.IsNaN(number) {
 		return stringValue("NaN")
+	}
+	if math.IsInf(number, 0) { // 15.7.4.6 step 6 precedes the range check
+		return stringValue(floatToString(number, 64))
 	}
 	precision := float64(-1)
 	if value := call.Argument(0); value.IsDefined() {
 		precision = toIntegerFloat(value)
-		if 0 > precision {
-			panic(call.runtime.panicRangeError("toString() radix must be between 2 and 36"))
+		if 0 > precision || 20 < precision {
+			panic(call.runtime.panicRangeError("toExponential() fractionDigits must be between 0 and 20"))
 		}
 	}
-	return stringValue(strconv.FormatFloat(call.This.float64(), 'e', int(precision), 64))
+	if number == 0 {
+		number = 0 // no sign for -0
+	}
+	if number == 0 || precision < 0 { // nothing to round
+		return stringValue(strconv.FormatFloat(number, 'e', int(precision), 64))
+	}
+	return stringValue(roundHalfUp(number, int(precision)+1, 'e', int(precision)))
+}
+
+// roundHalfUp formats x (finite, not zero) with the given strconv verb after
+// rounding it to digits significant decimal digits, an exact tie going to the
+// larger magnitude (ECMA-262 15.7.4.6 step 9.b.i, 15.7.4.7 step 10.a);
+// strconv rounds ties to even.
+func roundHalfUp(x float64, digits int, verb byte, precision int) string {
+	exact := new(big.Float).SetFloat64(math.Abs(x)).Text('e', 800) // every decimal digit of x
+	mark := strings.IndexByte(exact, 'e')
+	mantissa := strings.Replace(exact[:mark], ".", "", 1)
+	exponent, _ := strconv.Atoi(exact[mark+1:])
+	n, _ := new(big.Int).SetString(mantissa[:digits], 10)
+	if mantissa[digits] >= '5' {
+		n.Add(n, big.NewInt(1))
+	}
+	// n * 10^(exponent-digits+1), held precisely enough to print its own digits
+	rounded, _, _ := big.ParseFloat(n.String()+"e"+strconv.Itoa(exponent-digits+1), 10, 4096, big.ToNearestEven)
+	if x < 0 {
+		rounded.Neg(rounded)
+	}
+	return rounded.Text(verb, precision)
 }
 
 func builtinNumberToPrecision(call FunctionCall) Value {
-	if call.This.IsNaN() {
+	// Will throw a TypeError if ThisObject is not a Number
+	this := call.thisClassObject(classNumberName).primitiveValue()
+	if this.IsNaN() {
 		return stringValue("NaN")
 	}
 	value := call.Argument(0)
 	if value.IsUndefined() {
-		return stringValue(call.This.string())
+		return stringValue(this.string())
+	}
+	number := this.float64()
+	if math.IsInf(number, 0) { // 15.7.4.7 step 7 precedes the range check
+		return stringValue(floatToString(number, 64))
 	}
 	precision := toIntegerFloat(value)
-	if 1 > precision {
-		panic(call.runtime.panicRangeError("toPrecision() precision must be greater than 1"))
+	if 1 > precision || 21 < precision {
+		panic(call.runtime.panicRangeError("toPrecision() precision must be between 1 and 21"))
 	}
-	return stringValue(strconv.FormatFloat(call.This.float64(), 'g', int(precision), 64))
+	if number == 0 {
+		return stringValue(strconv.FormatFloat(0, 'g', int(precision), 64)) // no sign for -0
+	}
+	return stringValue(roundHalfUp(number, int(precision), 'g', int(precision)))
 }
 
 func builtinNumberIsNaN(call FunctionCall) Value {
